@@ -8,6 +8,7 @@ root / upload directory, tree snapshots.  Oracle: per-connection order check.
 """
 from __future__ import annotations
 
+import asyncio
 import itertools
 import os
 import shutil
@@ -67,7 +68,7 @@ class Recorder:
             r = await self.inner.process_request(request_url, client_ip, client_cert_fingerprint)
             outcome = "allow" if r[0] else "deny"
             return r
-        except Exception:
+        except (Exception, asyncio.CancelledError):
             outcome = "raise"
             raise
         finally:
@@ -81,6 +82,8 @@ COMPONENT_SPECS = [
     {"kind": "spy", "outcome": "deny", "delay": 5, "response": "44 Scripted slow deny\r\n"},
     {"kind": "spy", "outcome": "raise"},
     {"kind": "spy", "outcome": "raise", "delay": 5},
+    {"kind": "spy", "outcome": "raise", "exc": "CancelledError"},
+    {"kind": "spy", "outcome": "raise", "exc": "StrRaises", "delay": 5},
     {"kind": "acl", "deny": True},
     {"kind": "acl", "deny": False},
     {"kind": "cert", "allow_fp": None},
